@@ -10,6 +10,7 @@ From Coq Require Import String List Arith Bool ZArith.
 Import ListNotations.
 From NP Require Import Base Values Arrow Frame Proofs_Reduce.
 From NP Require Import Dtype Names Reduce2 Proofs_Reduce2.
+From NP Require Import CountBy Proofs_CountBy.
 
 Theorem C10_calls : forall rows cols, cols <> [] -> forallb (col_ok (length rows)) cols = true ->
   m_reduce_calls rows cols = spec_reduce_calls rows cols.
@@ -67,6 +68,42 @@ Theorem C10_layer_is_text_before_first_dot : forall l c, has_char DOT l = false 
   starts_with (l ++ [DOT]) c = has_char DOT c && str_eqb (layer_of c) l.
 Proof. exact starts_with_layer. Qed.
 Print Assumptions C10_layer_is_text_before_first_dot.
+
+(* count_nested(by=field) (CountBy.v mirrors the per-row value_counts and the assembly of the count table): the count
+   columns are exactly the non-null values of the field occurring in some row, each once; one row of cells per input
+   row; every cell is the number of that row's records carrying the value ("no count" when there is none); a missing or
+   empty row has no count anywhere; a row's counts add up to its records with a non-null value *)
+Theorem C10_count_by_columns : forall rows k v,
+  In v (fst (m_count_by rows k)) <-> (v <> VNull /\ exists r, In r rows /\ In v (field_values k r)).
+Proof. exact count_by_columns. Qed.
+Print Assumptions C10_count_by_columns.
+
+Theorem C10_count_by_columns_distinct : forall rows k, NoDup (fst (m_count_by rows k)).
+Proof. exact count_by_columns_nodup. Qed.
+Print Assumptions C10_count_by_columns_distinct.
+
+Theorem C10_count_by_one_row_per_row : forall rows k,
+  length (snd (m_count_by rows k)) = length rows /\
+  Forall (fun cells => length cells = length (fst (m_count_by rows k))) (snd (m_count_by rows k)).
+Proof. exact count_by_shape. Qed.
+Print Assumptions C10_count_by_one_row_per_row.
+
+Theorem C10_count_by_cell : forall rows k i j,
+  i < length rows -> j < length (fst (m_count_by rows k)) ->
+  nth j (nth i (snd (m_count_by rows k)) []) None = spec_count_cell rows k i (nth j (fst (m_count_by rows k)) VNull).
+Proof. exact count_by_cell. Qed.
+Print Assumptions C10_count_by_cell.
+
+Theorem C10_count_by_missing_row : forall rows k i, i < length rows -> recs (nth i rows None) = [] ->
+  Forall (fun c => c = None) (nth i (snd (m_count_by rows k)) []).
+Proof. exact count_by_missing_row. Qed.
+Print Assumptions C10_count_by_missing_row.
+
+Theorem C10_count_by_total : forall rows k i, i < length rows ->
+  fold_right (fun c acc => match c with Some n => n + acc | None => acc end) 0 (nth i (snd (m_count_by rows k)) [])
+  = length (filter (fun v => negb (is_null v)) (field_values k (nth i rows None))).
+Proof. exact count_by_total. Qed.
+Print Assumptions C10_count_by_total.
 
 Example C10_nonvacuous :
   m_reduce_calls [Some [[VInt 1; VTok 5]; [VInt 2; VTok 6]]; None; Some []]
